@@ -64,9 +64,15 @@ class RegexCompiler:
 
         return self.bytecode
 
+    # Upper bound on the size of a compiled pattern
+    MAX_INSTRUCTIONS = 100000
+
     def _emit(self, opcode: Op, *args) -> int:
         """Emit an instruction and return its index."""
         idx = len(self.bytecode)
+        if idx >= self.MAX_INSTRUCTIONS:
+            # Counted and nested quantifiers are expanded: bound the work and memory
+            raise RegExpError("Regular expression too large")
         self.bytecode.append((opcode, *args))
         return idx
 
